@@ -46,6 +46,8 @@ KEYS = tuple(FLOORS["quick"].keys()) + ("monitor_cases", "red_cases", "port_case
 # floors for the situations added with the later rounds of seeded changes (evidence that they were really exercised)
 FLOORS["quick"].update({'reentries': 150})
 FLOORS["thorough"].update({'reentries': 750})
+FLOORS["quick"].update({'puts_before_the_run': 15, 'rate_reassignments': 12})
+FLOORS["thorough"].update({'puts_before_the_run': 75, 'rate_reassignments': 60})
 
 
 def plan(tier):
